@@ -133,6 +133,69 @@ theorem com_total_pos (cut : ℤ → ℤ → ℚ) (n m cy cx y0 x0 : ℤ)
         linarith [hl a List.mem_cons_self]
   exact this _ hnn hmem
 
+/-- the refinement of a first maximum stays within 2 px (composition of the lemmas above on the
+model's `refineCenter`) -/
+theorem refineCenter_within (corr : ℤ → ℤ → ℚ) (h w cy cx : ℤ) (hy : 0 ≤ cy ∧ cy < h) (hx : 0 ≤ cx ∧ cx < w)
+    (hfirst : ∀ y x : ℤ, 0 ≤ y → y < h → 0 ≤ x → x < w → y < cy → corr y x < corr cy cx) :
+    |(refineCenter corr h w cy cx Gen.refine_radius).1 - (cy : ℚ)| ≤ 2 ∧
+    |(refineCenter corr h w cy cx Gen.refine_radius).2 - (cx : ℚ)| ≤ 2 := by
+  unfold refineCenter
+  simp only []
+  have hb := C03.refine_cut_in_bounds cy cx h w hy hx
+  simp only [] at hb
+  set r := Gen.refine_r Gen.refine_radius cy cx h w with hr
+  by_cases hg : Gen.refine_guard r = true
+  · rw [if_pos hg]
+    simp
+  · rw [if_neg hg]
+    have hgf : Gen.refine_guard r = false := by simpa using hg
+    obtain ⟨hr0, hr2, hcut⟩ := hb
+    obtain ⟨hly, hhy, hlx, hhx, hny, hnx⟩ := hcut hgf
+    have hrpos : 1 ≤ r := by
+      unfold Gen.refine_guard at hgf
+      simp only [decide_eq_false_iff_not, not_le] at hgf
+      omega
+    simp only [hny, hnx]
+    set cut : ℤ → ℤ → ℚ := fun y x => corr (Gen.cut_lo cy r + y) (Gen.cut_lo cx r + x) with hcutdef
+    have hlo_y : Gen.cut_lo cy r = cy - r := rfl
+    have hlo_x : Gen.cut_lo cx r = cx - r := rfl
+    have hpos := com_total_pos cut (2 * r + 1) (2 * r + 1) r r 0 0
+      ⟨⟨by omega, by omega⟩, ⟨by omega, by omega⟩⟩ ⟨⟨by omega, by omega⟩, ⟨by omega, by omega⟩⟩ (by
+        simp only [hcutdef, hlo_y, hlo_x]
+        have e1 : cy - r + r = cy := by ring
+        have e2 : cx - r + r = cx := by ring
+        rw [e1, e2, add_zero, add_zero]
+        exact hfirst (cy - r) (cx - r) (by rw [← hlo_y]; exact hly) (by omega) (by rw [← hlo_x]; exact hlx) (by omega) (by omega))
+    have hull := com_in_hull (fun y x => cut y x - minList (flat cut (2 * r + 1) (2 * r + 1))) (2 * r + 1) (2 * r + 1)
+      (fun y x hy0 hy1 hx0 hx1 => cutout_nonneg cut (2 * r + 1) (2 * r + 1) y x ⟨hy0, hy1⟩ ⟨hx0, hx1⟩) hpos
+    obtain ⟨h1, h2, h3, h4⟩ := hull
+    have c1 := refine_within_r cy r _ ⟨hr0, hr2⟩ ⟨h1, by push_cast at h2 ⊢; linarith⟩
+    have c2 := refine_within_r cx r _ ⟨hr0, hr2⟩ ⟨h3, by push_cast at h4 ⊢; linarith⟩
+    exact ⟨le_trans c1.1 c1.2, le_trans c2.1 c2.2⟩
+
+/-- **C04 at the model level, no hypotheses on the data: for every correlation map of every size the
+refined position returned by the evaluation is within 2 px of the integer centre on both axes**
+(the centre is the first maximum ⇒ the min-subtracted cut-out has positive total ⇒ the centre of
+mass exists and lies in the cut-out). -/
+theorem evaluate_refined_within (corr : ℤ → ℤ → ℚ) (n m : ℕ) (hn : 0 < n) (hm : 0 < m) :
+    |(evaluate corr n m).ry - ((evaluate corr n m).cy : ℚ)| ≤ 2 ∧
+    |(evaluate corr n m).rx - ((evaluate corr n m).cx : ℚ)| ≤ 2 := by
+  obtain ⟨hcy, hcx, hh, _, hfirst⟩ := C03.evaluate_center_is_max corr n m hn hm
+  have key := refineCenter_within corr n m (evaluate corr n m).cy (evaluate corr n m).cx hcy hcx (by
+    intro y x hy0 hy1 hx0 hx1 hlt
+    have := hfirst y.toNat x.toNat (by omega) (by omega) (by
+      have ey : ((y.toNat : ℕ) : ℤ) = y := Int.toNat_of_nonneg hy0
+      have ex : ((x.toNat : ℕ) : ℤ) = x := Int.toNat_of_nonneg hx0
+      push_cast
+      rw [ey, ex]
+      have h1 : (y + 1) * (m : ℤ) ≤ (evaluate corr n m).cy * (m : ℤ) :=
+        Int.mul_le_mul_of_nonneg_right (by omega) (by omega)
+      have h2 : (y + 1) * (m : ℤ) = y * m + m := by ring
+      omega)
+    rw [Int.toNat_of_nonneg hy0, Int.toNat_of_nonneg hx0, hh] at this
+    exact this)
+  exact key
+
 /-- slopes `(height − v)/d` are compared through their squares; squares of slopes are ≥ 0 and the
 reported elevation is `max(0, ·)` of the smallest slope, hence never negative -/
 theorem elev_nonneg (height v d2 : ℚ) (hd : 0 < d2) : 0 ≤ (height - v) ^ 2 / d2 ∧
